@@ -35,7 +35,7 @@ def contexts(leaf):
         ('bin', 'in', r, ('set', L(1), L(2))), ('bin', 'in', Y, ('set', r, L(2))), ('bin', 'in', Y, ('set', L(2), L(3), r)),
         ('bin', 'in', Y, ('range', r, L(5), False, False)), ('bin', 'in', Y, ('range', L(0), r, True, True)),
         ('bin', '<', ('idx', ('f', 'ys'), r), L(1)), ('bin', '<', ('call', 'abs', r), L(3)), ('bin', '<', ('call', 'max', Y, r), L(3)),
-        ('bin', '<', ('call', 'max', Y, L(1), r), L(3)), ('bin', '<', ('call', 'sum', ('set', r, Y)), L(3)), ('bin', '<', ('call', 'len', ('range', r, Y, False, False)), L(3)),
+        ('bin', '<', ('call', 'max', Y, L(1), r), L(3)), ('bin', '<', ('call', 'min', Y, L(1), L(2), r), L(3)), ('bin', '<', ('call', 'gcd', Y, L(4), L(6), L(8), r), L(3)), ('bin', '<', ('call', 'sum', ('set', r, Y)), L(3)), ('bin', '<', ('call', 'len', ('range', r, Y, False, False)), L(3)),
         ('not', ('bin', '<', r, L(1))), ('bin', 'implies', ('bin', '<', r, L(1)), ('f', 'p')), ('bin', 'and', ('f', 'p'), ('bin', 'or', ('f', 'q'), ('bin', '<', r, L(1)))),
         ('q', 'forall', V, ('set', r, L(1)), ('bin', '<', v, L(3))), ('q', 'exists', V, ('range', L(0), r, False, False), ('bin', '<', v, L(3))),
         ('q', 'forall', V, ('f', 'ys'), ('bin', '<', v, r)), ('q', 'exists', V, ('f', 'ys'), ('bin', 'and', ('bin', '<', v, L(1)), ('bin', '>', r, L(0)))),
@@ -223,7 +223,7 @@ def main() -> int:
     ck.sample({'tree_template': gen.render(subst(items[7][0], {'N1': 'n', 'QV': 'v', 'QW': 'w'})), 'symbolic_names': ['n', 'v', 'w', 'probe', 'alias']})
     ck.sample({'tree_template': gen.render(subst(items[len(items) // 2][0], {'N1': 'n', 'QV': 'v', 'QW': 'w'})), 'symbolic_names': ['n', 'v', 'w', 'probe', 'alias']})
     ck.engine('SP', trees=len(items), paths=paths, paths_where_names_make_the_tree_invalid=skipped, wall_s=round(time.time() - t0, 1))
-    ck.bound('trees', f'{len(items)} templates: 6 leaf forms (alias field, alias array element, own field, literal, index expression, nested message field) x 25 (node kind x child slot) contexts'
+    ck.bound('trees', f'{len(items)} templates: 6 leaf forms (alias field, alias array element, own field, literal, index expression, nested message field) x 27 (node kind x child slot) contexts'
              + ' x 4 (bare + 3 wrappers)' + ', each at expression, predicate, event and event-disjunction level')
     ck.bound('names', 'variable / quantifier / probe / event-alias names symbolic: every equality pattern between them')
     ck.coverage['evaluations'] = paths
